@@ -11,19 +11,13 @@ import (
 	"time"
 
 	"github.com/dapr/kit/concurrency"
-	"github.com/dapr/kit/logger"
 
 	"verif/harness/common"
+	"verif/harness/stublog"
 	"verif/simrt"
 )
 
 const maxInjected = 1500 * time.Microsecond
-
-type stubLog struct{ logger.Logger }
-
-func (stubLog) Warn(args ...interface{})                  {}
-func (stubLog) Debugf(format string, args ...interface{}) {}
-func (stubLog) Fatal(args ...interface{})                 {}
 
 type unit struct {
 	id       int
@@ -309,7 +303,7 @@ func closerManager(s *simrt.Sim) {
 	for _, u := range runners {
 		rs = append(rs, u.runner(s))
 	}
-	m := concurrency.NewRunnerCloserManager(stubLog{}, grace, rs...)
+	m := concurrency.NewRunnerCloserManager(stublog.Log{}, grace, rs...)
 	fatal := 0
 	m.WithFatalShutdown(func() { fatal++; s.Logf("FATAL") })
 	for _, u := range closers {
